@@ -1,19 +1,30 @@
 //! C11 — JOSE header policy (crit, b64, disjointness, alg) is enforced fail-closed.
 //!
 //! E1, complete decision table. A row is a pair (protected, unprotected) of optional headers, each header a
-//! product alg{absent,EdDSA} x b64{absent,true,false} x crit{absent,[],[b64],[b64,b64],[alg],[exp],[x-unknown]}
-//! (thorough adds [x],[b64,exp],[kid]) with a custom member `x` and the registered member `kid` each placed in
-//! {neither, protected, unprotected, both}; a second table shares each further registered member individually.
-//! Entry points: the three decoders (+ `JwsValidationItem::verify` with an accept-all verifier and an unpinned
-//! key) on hand-assembled JSON/base64, and the four encoder constructors on typed headers. For the general
-//! serialization the table is run over ordered pairs / triples of signature entries (decoder) and of recipients
-//! (`GeneralJwsEncoder::add_recipient`), which is where "recipients disagree on b64" lives.
+//! product alg{absent,EdDSA} x b64{absent,true,false} x crit{absent,[],[b64],[b64,b64],[alg],[exp],[x-unknown],[x]}
+//! (thorough: the protected header ranges over the whole crit alphabet `CRIT`, 18 values) with a custom member `x`
+//! and the registered member `kid` each placed in {neither, protected, unprotected, both}; a second table shares
+//! each further registered member individually.
+//! Entry points: the three decoders (+ `JwsValidationItem::alg` and `::verify` with an accept-all verifier and an
+//! unpinned key) on hand-assembled JSON/base64, and the encoder constructors (`CompactJwsEncoder::new` and
+//! `::new_with_options`, `FlattenedJwsEncoder::new`, `GeneralJwsEncoder::new` / `add_recipient`) on typed headers.
+//! For the general serialization the table is run over ordered pairs / triples / quadruples of signature entries
+//! (decoder) and of recipients (`GeneralJwsEncoder::add_recipient`), which is where "recipients disagree on b64" lives.
+//!
+//! Further tables (all entry points): the disjointness table (custom members `x`, `y`, `X` as subsets on either
+//! side, equal or different values on the two sides), every ordered pair of *different* registered members split
+//! over the two headers (must be accepted), shared registered members with different values, and the crit table
+//! (two-name lists in both orders, `crit` naming itself, the empty name, a case variant of `b64`).
+//! Every encoder row that is accepted is finished (`into_jws`) and given to the library's own decoder.
 //!
 //! Oracle: the truth table transcribed from the property statement (`rules`): a header set is rejected iff it
 //! violates one of the listed rules. Not judged (executed and recorded only): a signature entry with no header
 //! at all (the statement lists no rule for it; only "verify must fail" is demanded), recipients whose b64 is
-//! spelled differently but is effectively equal (explicit true vs absent), and typed headers that smuggle a
-//! registered name through the custom map.
+//! spelled differently but is effectively equal (explicit true vs absent), the fate of a *valid* signature entry
+//! / of the whole token when a sibling entry of the same general-serialization token violates a rule (the
+//! statement speaks about header sets; failing the whole token early is as fail-closed as failing one item),
+//! which error variant / message a rejection carries, typed headers that smuggle a registered name through the
+//! custom map, and JSON spellings the typed header cannot express (null-valued and duplicated members).
 
 use identity_core::common::Url;
 use identity_jose::error::Error;
@@ -41,9 +52,21 @@ struct Hdr {
   /// one further registered member (index into REG)
   #[serde(default, skip_serializing_if = "Option::is_none")]
   reg: Option<u8>,
+  /// custom member "y"
+  #[serde(default, skip_serializing_if = "is_false")]
+  y: bool,
+  /// custom member "X" (a different name than "x": parameter names are case-sensitive)
+  #[serde(default, skip_serializing_if = "is_false")]
+  ux: bool,
+  /// the members kid / x / y / X / reg carry their alternative value (so that a shared name can carry two values)
+  #[serde(default, skip_serializing_if = "is_false")]
+  alt: bool,
+}
+fn is_false(b: &bool) -> bool {
+  !*b
 }
 
-const CRIT: [Option<&[&str]>; 10] = [
+const CRIT: [Option<&[&str]>; 18] = [
   None,
   Some(&[]),
   Some(&["b64"]),
@@ -52,23 +75,34 @@ const CRIT: [Option<&[&str]>; 10] = [
   Some(&["exp"]),
   Some(&["x-unknown"]),
   Some(&["x"]),
+  // ---- from here on: crit table (protected header only) in quick, part of the full product in thorough
   Some(&["b64", "exp"]),
   Some(&["kid"]),
+  Some(&["exp", "b64"]),
+  Some(&["b64", "x"]),
+  Some(&["x", "b64"]),
+  Some(&["b64", "alg"]),
+  Some(&["crit"]),
+  Some(&[""]),
+  Some(&["B64"]),
+  Some(&["x5t#S256"]),
 ];
+/// Size of the crit alphabet of the full (protected x unprotected) product in quick, and of the unprotected
+/// header in both tiers (an unprotected crit violates the same single rule whatever it lists).
 const CRIT_QUICK: usize = 8;
 
-/// Further registered members (name, JSON value text). `jwk` is filled in at run time.
-const REG: [(&str, &str); 10] = [
-  ("jku", "\"https://example.com/jwks.json\""),
-  ("jwk", ""),
-  ("x5u", "\"https://example.com/cert.pem\""),
-  ("x5c", "[\"MIIBsjCCAVigAwIBAgIU\"]"),
-  ("x5t", "\"dGh1bWI\""),
-  ("x5t#S256", "\"dGh1bWIyNTY\""),
-  ("typ", "\"JWT\""),
-  ("cty", "\"json\""),
-  ("url", "\"https://example.com/acme/new-order\""),
-  ("nonce", "\"n-1\""),
+/// Further registered members (name, JSON value text, alternative value text). `jwk` is filled in at run time.
+const REG: [(&str, &str, &str); 10] = [
+  ("jku", "\"https://example.com/jwks.json\"", "\"https://example.org/other.json\""),
+  ("jwk", "", ""),
+  ("x5u", "\"https://example.com/cert.pem\"", "\"https://example.org/other.pem\""),
+  ("x5c", "[\"MIIBsjCCAVigAwIBAgIU\"]", "[\"AAAA\",\"BBBB\"]"),
+  ("x5t", "\"dGh1bWI\"", "\"b3RoZXI\""),
+  ("x5t#S256", "\"dGh1bWIyNTY\"", "\"b3RoZXIyNTY\""),
+  ("typ", "\"JWT\"", "\"JOSE\""),
+  ("cty", "\"json\"", "\"text\""),
+  ("url", "\"https://example.com/acme/new-order\"", "\"https://example.org/acme/other\""),
+  ("nonce", "\"n-1\"", "\"n-2\""),
 ];
 
 /// Header Parameter names registered by RFC 7515 §4.1 (what "names a registered header parameter" means).
@@ -79,8 +113,9 @@ const IMPLEMENTED: [&str; 1] = ["b64"];
 type Entry = (Option<Hdr>, Option<Hdr>);
 
 static KEY: once_cell::sync::Lazy<identity_jose::jwk::Jwk> = once_cell::sync::Lazy::new(|| EdKey::new(1).public);
-fn jwk_json() -> String {
-  serde_json::to_string(&*KEY).expect("jwk json")
+static KEY2: once_cell::sync::Lazy<identity_jose::jwk::Jwk> = once_cell::sync::Lazy::new(|| EdKey::new(2).public);
+fn jwk_json(alt: bool) -> String {
+  serde_json::to_string(if alt { &*KEY2 } else { &*KEY }).expect("jwk json")
 }
 
 /// Member (name, value text) list of a header in the canonical order.
@@ -98,15 +133,22 @@ fn members(h: &Hdr) -> Vec<(&'static str, String)> {
     let inner: Vec<String> = names.iter().map(|n| format!("\"{n}\"")).collect();
     m.push(("crit", format!("[{}]", inner.join(","))));
   }
+  let a = h.alt;
   if h.kid {
-    m.push(("kid", "\"k1\"".into()));
+    m.push(("kid", if a { "\"k2\"" } else { "\"k1\"" }.into()));
   }
   if h.x {
-    m.push(("x", "1".into()));
+    m.push(("x", if a { "2" } else { "1" }.into()));
+  }
+  if h.y {
+    m.push(("y", if a { "\"w\"" } else { "\"v\"" }.into()));
+  }
+  if h.ux {
+    m.push(("X", if a { "[2]" } else { "[1]" }.into()));
   }
   if let Some(r) = h.reg {
-    let (n, v) = REG[r as usize];
-    m.push((n, if n == "jwk" { jwk_json() } else { v.to_string() }));
+    let (n, v, w) = REG[r as usize];
+    m.push((n, if n == "jwk" { jwk_json(a) } else if a { w.to_string() } else { v.to_string() }));
   }
   m
 }
@@ -126,6 +168,12 @@ fn names(h: &Hdr) -> BTreeSet<&'static str> {
   }
   if h.x {
     s.insert("x");
+  }
+  if h.y {
+    s.insert("y");
+  }
+  if h.ux {
+    s.insert("X");
   }
   if let Some(r) = h.reg {
     s.insert(REG[r as usize].0);
@@ -155,20 +203,30 @@ fn typed(h: &Hdr) -> JwsHeader {
   if let Some(names) = CRIT[h.crit as usize] {
     t.set_crit(names.iter().map(|s| s.to_string()));
   }
+  let a = h.alt;
   if h.kid {
-    t.set_kid("k1");
+    t.set_kid(if a { "k2" } else { "k1" });
   }
-  if h.x {
+  if h.x || h.y || h.ux {
     let mut m = BTreeMap::new();
-    m.insert("x".to_string(), json!(1));
+    if h.x {
+      m.insert("x".to_string(), if a { json!(2) } else { json!(1) });
+    }
+    if h.y {
+      m.insert("y".to_string(), if a { json!("w") } else { json!("v") });
+    }
+    if h.ux {
+      m.insert("X".to_string(), if a { json!([2]) } else { json!([1]) });
+    }
     t.set_custom(m);
   }
   if let Some(r) = h.reg {
-    let (n, v) = REG[r as usize];
+    let (n, v, w) = REG[r as usize];
+    let v = if a { w } else { v };
     let s = || serde_json::from_str::<String>(v).expect("reg string");
     match n {
       "jku" => t.set_jku(Url::parse(s()).expect("url")),
-      "jwk" => t.set_jwk(KEY.clone()),
+      "jwk" => t.set_jwk(if a { KEY2.clone() } else { KEY.clone() }),
       "x5u" => t.set_x5u(Url::parse(s()).expect("url")),
       "x5c" => t.set_x5c(serde_json::from_str::<Vec<String>>(v).expect("x5c")),
       "x5t" => t.set_x5t(s()),
@@ -257,13 +315,17 @@ enum Case {
   Dec { entry: u8, p: Option<Hdr>, u: Option<Hdr>, detached: bool, rev: bool },
   /// general serialization with several signature entries
   DecGeneral { sigs: Vec<Entry>, detached: bool },
-  /// CompactJwsEncoder::new_with_options; opt 0 non-detached/Default, 1 non-detached/UrlSafe, 2 detached
+  /// CompactJwsEncoder::new_with_options; opt 0 non-detached/Default, 1 non-detached/UrlSafe, 2 detached;
+  /// opt 3 = CompactJwsEncoder::new
   EncCompact { p: Hdr, opt: u8 },
   EncFlattened { p: Option<Hdr>, u: Option<Hdr>, detached: bool },
   /// GeneralJwsEncoder::new(first) then add_recipient for every further entry
   EncGeneral { recips: Vec<Entry>, detached: bool },
   /// typed protected header whose custom map carries a registered name (recorded, not judged); `which` indexes SMUGGLE
   Smuggle { which: u8, enc: u8 },
+  /// JSON spellings of a header that the typed header cannot express (recorded, not judged); `which` indexes RAW,
+  /// entry as in `Dec`
+  DecRaw { entry: u8, which: u8 },
 }
 
 const PAYLOAD: &[u8] = b"aGk"; // valid base64url (of "hi"), URL-safe, no '.'
@@ -275,7 +337,6 @@ struct Acc {
   outcomes: BTreeMap<String, u64>,
   distinct: Vec<u64>,
   evals: u64,
-  nonpolicy: Vec<String>,
 }
 impl Acc {
   fn out(&mut self, l: String) {
@@ -285,9 +346,6 @@ impl Acc {
     ctx.outcomes_merge(&self.outcomes);
     ctx.distinct_many(self.distinct);
     ctx.add_evals(self.evals);
-    for n in self.nonpolicy.iter().take(3) {
-      ctx.require(false, n);
-    }
   }
 }
 
@@ -299,9 +357,19 @@ fn err_label(e: &Error) -> String {
     other => format!("{other:?}").chars().take(40).collect(),
   }
 }
-/// An error that is not a header-policy decision: the harness-assembled input would be malformed.
+/// An error variant that normally speaks about the wire form, not about the header policy. The statement ties no
+/// rule to an error variant (a maintainer may well enforce "crit must be protected" inside the deserialiser), so
+/// this is only a mark in the outcome histogram. That the harness-assembled tokens are well-formed is established
+/// independently: `self_check` parses every header text, and every rule-free row must be *accepted*.
 fn non_policy(e: &Error) -> bool {
   matches!(e, Error::InvalidJson(_) | Error::InvalidBase64(_) | Error::InvalidUtf8(_))
+}
+fn np_mark(nonpol: bool) -> &'static str {
+  if nonpol {
+    "[wire-form error variant]"
+  } else {
+    ""
+  }
 }
 
 fn sig_json(e: &Entry, rev: bool) -> String {
@@ -327,18 +395,22 @@ fn payload_member(detached: bool) -> String {
 enum ItemObs {
   /// decode error (label, non-policy)
   Err(String, bool),
-  /// decoded; verify result with the accept-all verifier and an unpinned key
-  Ok { verified: bool, verify_err: String },
+  /// decoded; what `JwsValidationItem::alg()` reported; verify result with the accept-all verifier and an unpinned key
+  Ok { alg_reported: bool, verified: bool, verify_err: String },
   Panic(String, String),
 }
 fn observe_item(r: Result<JwsValidationItem<'_>, Error>) -> ItemObs {
   match r {
     Err(e) => ItemObs::Err(err_label(&e), non_policy(&e)),
     Ok(item) => {
+      let alg_reported = match guard(|| item.alg().is_some()) {
+        Ok(b) => b,
+        Err(p) => return ItemObs::Panic(format!("JwsValidationItem::alg|{}", p.key()), p.msg),
+      };
       match guard(|| item.verify(&AlwaysOk, &KEY)) {
         Err(p) => ItemObs::Panic(format!("JwsValidationItem::verify|{}", p.key()), p.msg),
-        Ok(Ok(_)) => ItemObs::Ok { verified: true, verify_err: String::new() },
-        Ok(Err(e)) => ItemObs::Ok { verified: false, verify_err: err_label(&e) },
+        Ok(Ok(_)) => ItemObs::Ok { alg_reported, verified: true, verify_err: String::new() },
+        Ok(Err(e)) => ItemObs::Ok { alg_reported, verified: false, verify_err: err_label(&e) },
       }
     }
   }
@@ -351,18 +423,23 @@ fn judge_item(ctx: &Ctx, acc: &mut Acc, case: &Case, ep: &str, e: &Entry, obs: &
   match obs {
     ItemObs::Panic(k, m) => ctx.violation(k, m, case),
     ItemObs::Err(label, nonpol) => {
-      acc.out(format!("{ep}:reject:{label}"));
-      if *nonpol {
-        acc.nonpolicy.push(format!("{ep}: non-policy error {label} on a harness-assembled token: {case:?}"));
-      }
+      acc.out(format!("{ep}:reject{}:{label}", np_mark(*nonpol)));
       if r.is_empty() && !no_header(e) && !open_accept {
         ctx.violation(&format!("{ep}|valid-header-set|rejected"), &format!("header set violates no rule but was rejected with {label}"), case);
       }
     }
-    ItemObs::Ok { verified, verify_err } => {
+    ItemObs::Ok { alg_reported, verified, verify_err } => {
       acc.out(format!("{ep}:accept"));
       if !r.is_empty() {
         ctx.violation(&format!("{ep}|{}|accepted", rule_key(&r)), &format!("header set violating {r:?} was decoded"), case);
+      }
+      // documented: "The algorithm parsed from the protected header if it exists" — what callers pick the verifier by
+      if *alg_reported != has_alg {
+        ctx.violation(
+          "JwsValidationItem::alg|differs-from-alg-of-protected-header",
+          &format!("alg() is_some = {alg_reported} although the protected header carries {} alg", if has_alg { "an" } else { "no" }),
+          case,
+        );
       }
       // verification without an alg in the protected header is rejected; nothing else can fail here
       if *verified && !has_alg {
@@ -442,30 +519,39 @@ fn eval_into(ctx: &Ctx, acc: &mut Acc, case: &Case) {
       let hard_disagree = effs.len() > 1;
       let spellings: BTreeSet<(u8, u8)> = sigs.iter().map(b64_spelling).collect();
       let same_spelling = spellings.len() <= 1;
+      // The accept direction is judged on tokens all of whose entries are rule-free and spell b64 identically. With a
+      // rule-violating sibling the statement does not say whether the rest of the token survives.
+      let judged_accept = same_spelling && valid.iter().all(|v| *v);
       let total_rules: usize = sigs.iter().map(|e| rules(e.0.as_ref(), e.1.as_ref()).len()).sum();
       match obs {
         Err(pn) => ctx.violation(&format!("{ep}|{}", pn.key()), &pn.msg, case),
         Ok(Err((label, nonpol))) => {
-          acc.out(format!("{ep}[n]:token-rejected:{label}"));
-          if nonpol {
-            acc.nonpolicy.push(format!("{ep}: non-policy error {label} on a harness-assembled token: {case:?}"));
-          }
-          if same_spelling && valid.iter().any(|v| *v) {
+          acc.out(format!("{ep}[n]:token-rejected{}{}:{label}", if judged_accept { "" } else { "(open)" }, np_mark(nonpol)));
+          if judged_accept {
             ctx.violation(
               &format!("{ep}|valid-signature-entries-agreeing-on-b64|token-rejected"),
-              &format!("token with identically spelled b64 and a valid entry was rejected as a whole: {label}"),
+              &format!("token whose signature entries all violate no rule and spell b64 identically was rejected as a whole: {label}"),
               case,
             );
           }
         }
         Ok(Ok(items)) => {
           if items.len() != sigs.len() {
-            ctx.violation(&format!("{ep}|item-count-differs-from-signature-count"), &format!("{} items for {} signatures", items.len(), sigs.len()), case);
-            return;
+            if judged_accept {
+              ctx.violation(&format!("{ep}|item-count-differs-from-signature-count"), &format!("{} items for {} rule-free signature entries", items.len(), sigs.len()), case);
+            }
+            acc.out(format!("{ep}[n]:item-count-differs{}", if judged_accept { "" } else { "(open)" }));
+            if items.len() > sigs.len() {
+              return;
+            }
+            // fewer items (an iterator that stops early): the items yielded so far still answer for their entries
           }
-          // individual table: a rule-violating entry is never decoded; a valid one is decoded when all agree on b64
+          // individual table: a rule-violating entry is never decoded; valid ones are decoded when the whole token is rule-free
           for (e, o) in sigs.iter().zip(&items) {
-            judge_item(ctx, acc, case, ep, e, o, !same_spelling);
+            judge_item(ctx, acc, case, ep, e, o, !judged_accept);
+          }
+          if items.len() != sigs.len() {
+            return;
           }
           let all_valid_ok = items.iter().zip(&valid).filter(|(_, v)| **v).all(|(o, _)| matches!(o, ItemObs::Ok { .. }));
           if hard_disagree {
@@ -489,7 +575,7 @@ fn eval_into(ctx: &Ctx, acc: &mut Acc, case: &Case) {
       }
     }
     Case::EncCompact { p, opt } => {
-      let ep = "CompactJwsEncoder::new_with_options";
+      let ep = if *opt == 3 { "CompactJwsEncoder::new" } else { "CompactJwsEncoder::new_with_options" };
       let h = typed(p);
       let options = match opt {
         0 => CompactJwsEncodingOptions::NonDetached { charset_requirements: CharSet::Default },
@@ -497,8 +583,18 @@ fn eval_into(ctx: &Ctx, acc: &mut Acc, case: &Case) {
         _ => CompactJwsEncodingOptions::Detached,
       };
       let r = rules(Some(p), None);
-      let res = guard(|| CompactJwsEncoder::new_with_options(PAYLOAD, &h, options).map(|e| e.into_jws(&[1, 2, 3])));
+      let res = guard(|| {
+        let enc = if *opt == 3 { CompactJwsEncoder::new(PAYLOAD, &h) } else { CompactJwsEncoder::new_with_options(PAYLOAD, &h, options) };
+        enc.map(|e| e.into_jws(&[1, 2, 3]))
+      });
+      let jws = match &res {
+        Ok(Ok(j)) if r.is_empty() => Some(j.clone()),
+        _ => None,
+      };
       judge_enc(ctx, acc, case, ep, &r, false, res.map(|r| r.map(|_| ())));
+      if let Some(jws) = jws {
+        own_decoder(ctx, acc, case, ep, 0, &jws, *opt == 2, p.b64 != 2, 1);
+      }
       nontrivial_mark(acc, 10, case, r.len());
     }
     Case::EncFlattened { p, u, detached } => {
@@ -506,8 +602,18 @@ fn eval_into(ctx: &Ctx, acc: &mut Acc, case: &Case) {
       let (tp, tu) = (p.as_ref().map(typed), u.as_ref().map(typed));
       let rc = Recipient { protected: tp.as_ref(), unprotected: tu.as_ref() };
       let r = rules(p.as_ref(), u.as_ref());
-      let res = guard(|| FlattenedJwsEncoder::new(PAYLOAD, rc, *detached).map(|_| ()));
-      judge_enc(ctx, acc, case, ep, &r, p.is_none() && u.is_none(), res);
+      let open = p.is_none() && u.is_none();
+      let (res, enc) = match guard(|| FlattenedJwsEncoder::new(PAYLOAD, rc, *detached)) {
+        Err(pn) => (Err(pn), None),
+        Ok(Err(e)) => (Ok(Err(e)), None),
+        Ok(Ok(enc)) => (Ok(Ok(())), Some(enc)),
+      };
+      judge_enc(ctx, acc, case, ep, &r, open, res);
+      if let (Some(enc), true) = (enc, r.is_empty() && !open) {
+        if let Some(jws) = judge_into_jws(ctx, acc, case, "FlattenedJwsEncoder::into_jws", guard(|| enc.into_jws(&[1, 2, 3]))) {
+          own_decoder(ctx, acc, case, "FlattenedJwsEncoder", 1, &jws, *detached, eff_b64(&(p.clone(), u.clone())), 1);
+        }
+      }
       nontrivial_mark(acc, 11, case, r.len());
     }
     Case::EncGeneral { recips, detached } => {
@@ -527,11 +633,13 @@ fn eval_into(ctx: &Ctx, acc: &mut Acc, case: &Case) {
         }
         Ok(Ok(e)) => {
           judge_enc(ctx, acc, case, "GeneralJwsEncoder::new", &r0, no_header(&recips[0]), Ok(Ok(())));
-          e.set_signature(&[1, 2, 3])
+          Some(e.set_signature(&[1, 2, 3]))
         }
       };
       let ep = "GeneralJwsEncoder::add_recipient";
       let mut disagreed = false;
+      // every recipient was rule-free, judged and accepted: the token is finished and given to the own decoder
+      let mut finish = r0.is_empty() && !no_header(&recips[0]);
       for i in 1..recips.len() {
         let ri = rules(recips[i].0.as_ref(), recips[i].1.as_ref());
         total_rules += ri.len();
@@ -543,7 +651,9 @@ fn eval_into(ctx: &Ctx, acc: &mut Acc, case: &Case) {
           why.push("recipients-disagree-on-b64");
           disagreed = true;
         }
-        let res = guard(|| enc.add_recipient(rc(i)));
+        finish &= why.is_empty() && !open;
+        let cur = enc.take().expect("encoder present while the loop runs");
+        let res = guard(|| cur.add_recipient(rc(i)));
         match res {
           Err(pn) => return ctx.violation(&format!("{ep}|{}", pn.key()), &pn.msg, case),
           Ok(Err(e)) => {
@@ -555,8 +665,13 @@ fn eval_into(ctx: &Ctx, acc: &mut Acc, case: &Case) {
             if !why.is_empty() {
               break; // wrongly accepted: do not cascade
             }
-            enc = next.set_signature(&[1, 2, 3]);
+            enc = Some(next.set_signature(&[1, 2, 3]));
           }
+        }
+      }
+      if let (true, Some(done)) = (finish, enc) {
+        if let Some(jws) = judge_into_jws(ctx, acc, case, "GeneralJwsEncoder::into_jws", guard(|| done.into_jws())) {
+          own_decoder(ctx, acc, case, "GeneralJwsEncoder", 2, &jws, *detached, eff_b64(&recips[0]), recips.len());
         }
       }
       nontrivial_mark(acc, 12, case, total_rules + disagreed as usize);
@@ -596,6 +711,117 @@ fn eval_into(ctx: &Ctx, acc: &mut Acc, case: &Case) {
       }
       acc.distinct.push(Ctx::hash_of(&(13u8, which, enc)));
     }
+    Case::DecRaw { entry, which } => {
+      let (what, p, u) = &RAW[*which as usize];
+      let mut parts = vec![format!("\"protected\":\"{}\"", b64(p))];
+      if let Some(u) = u {
+        parts.push(format!("\"header\":{u}"));
+      }
+      parts.push(format!("\"signature\":\"{SIG_B64}\""));
+      let token = match entry {
+        0 => format!("{}.{}.{SIG_B64}", b64(p), std::str::from_utf8(PAYLOAD).unwrap()),
+        1 => format!("{{{}{}}}", payload_member(false), parts.join(",")),
+        _ => format!("{{{}\"signatures\":[{{{}}}]}}", payload_member(false), parts.join(",")),
+      };
+      let res = guard(|| -> Result<String, Error> {
+        let item = match entry {
+          0 => dec.decode_compact_serialization(token.as_bytes(), None)?,
+          1 => dec.decode_flattened_serialization(token.as_bytes(), None)?,
+          _ => match dec.decode_general_serialization(token.as_bytes(), None)?.next() {
+            Some(i) => i?,
+            None => return Ok("no-item".into()),
+          },
+        };
+        Ok(match item.verify(&AlwaysOk, &KEY) {
+          Ok(_) => "decoded;verified".into(),
+          Err(e) => format!("decoded;verify-rejects:{}", err_label(&e)),
+        })
+      });
+      let ep = ENTRY[*entry as usize];
+      match res {
+        Err(pn) => ctx.violation(&format!("{ep}|{}", pn.key()), &pn.msg, case),
+        Ok(Ok(l)) => acc.out(format!("open:{what}:{ep}:{l}")),
+        Ok(Err(e)) => acc.out(format!("open:{what}:{ep}:rejected:{}", err_label(&e))),
+      }
+      acc.distinct.push(Ctx::hash_of(&(14u8, which, entry)));
+    }
+  }
+}
+
+/// JSON spellings outside the typed header: (what, protected header text, unprotected header text).
+const RAW: [(&str, &str, Option<&str>); 12] = [
+  ("unprotected-b64-null", r#"{"alg":"EdDSA"}"#, Some(r#"{"b64":null}"#)),
+  ("unprotected-crit-null", r#"{"alg":"EdDSA"}"#, Some(r#"{"crit":null}"#)),
+  ("kid-shared-null-in-unprotected", r#"{"alg":"EdDSA","kid":"k1"}"#, Some(r#"{"kid":null}"#)),
+  ("kid-shared-null-in-protected", r#"{"alg":"EdDSA","kid":null}"#, Some(r#"{"kid":"k1"}"#)),
+  ("custom-shared-null-in-unprotected", r#"{"alg":"EdDSA","x":1}"#, Some(r#"{"x":null}"#)),
+  ("protected-b64-null-listed-in-crit", r#"{"alg":"EdDSA","b64":null,"crit":["b64"]}"#, None),
+  ("protected-b64-null", r#"{"alg":"EdDSA","b64":null}"#, None),
+  ("protected-b64-false-crit-null", r#"{"alg":"EdDSA","b64":false,"crit":null}"#, None),
+  ("protected-alg-null", r#"{"alg":null}"#, None),
+  ("protected-b64-twice", r#"{"alg":"EdDSA","b64":true,"b64":false,"crit":["b64"]}"#, None),
+  ("protected-crit-twice", r#"{"alg":"EdDSA","b64":false,"crit":["b64"],"crit":["exp"]}"#, None),
+  ("protected-custom-twice", r#"{"alg":"EdDSA","x":1,"x":2}"#, None),
+];
+
+/// `into_jws` of an encoder that accepted a rule-free header set: encoding must go through.
+fn judge_into_jws(ctx: &Ctx, acc: &mut Acc, case: &Case, ep: &str, res: Result<Result<String, Error>, vx::Panicked>) -> Option<String> {
+  match res {
+    Err(pn) => {
+      ctx.violation(&format!("{ep}|{}", pn.key()), &pn.msg, case);
+      None
+    }
+    Ok(Err(e)) => {
+      let label = err_label(&e);
+      acc.out(format!("{ep}:reject:{label}"));
+      ctx.violation(&format!("{ep}|valid-header-set|rejected"), &format!("the constructor accepted the rule-free header set, finishing the token failed with {label}"), case);
+      None
+    }
+    Ok(Ok(jws)) => {
+      acc.out(format!("{ep}:ok"));
+      Some(jws)
+    }
+  }
+}
+
+/// The token an encoder made from rule-free header sets carries exactly those header sets, so the decoder of the same
+/// library has to accept it (form 0 compact, 1 flattened, 2 general with `nsigs` signature entries).
+#[allow(clippy::too_many_arguments)]
+fn own_decoder(ctx: &Ctx, acc: &mut Acc, case: &Case, ep: &str, form: u8, jws: &str, detached: bool, b64_eff: bool, nsigs: usize) {
+  // a detached payload is handed to the decoder in the form it has inside the signing input
+  let dp: Vec<u8> = if b64_eff { b64(PAYLOAD).into_bytes() } else { PAYLOAD.to_vec() };
+  let det: Option<&[u8]> = if detached { Some(dp.as_slice()) } else { None };
+  let dec = Decoder::new();
+  let res = guard(|| -> Result<usize, Error> {
+    match form {
+      0 => dec.decode_compact_serialization(jws.as_bytes(), det).map(|_| 1),
+      1 => dec.decode_flattened_serialization(jws.as_bytes(), det).map(|_| 1),
+      _ => {
+        let mut n = 0;
+        for item in dec.decode_general_serialization(jws.as_bytes(), det)? {
+          item?;
+          n += 1;
+        }
+        Ok(n)
+      }
+    }
+  });
+  match res {
+    Err(pn) => ctx.violation(&format!("{ep} then own decoder|{}", pn.key()), &pn.msg, case),
+    Ok(Ok(n)) if n == nsigs => acc.out(format!("{ep}:token-accepted-by-own-decoder")),
+    Ok(Ok(n)) => ctx.violation(
+      &format!("{ep}|token-of-rule-free-header-sets|own-decoder-yields-different-signature-count"),
+      &format!("{n} items decoded from a token encoded for {nsigs} recipients: {jws}"),
+      case,
+    ),
+    Ok(Err(e)) => {
+      acc.out(format!("{ep}:token-rejected-by-own-decoder:{}", err_label(&e)));
+      ctx.violation(
+        &format!("{ep}|token-of-rule-free-header-sets|rejected-by-own-decoder"),
+        &format!("the token {jws} encoded from rule-free header sets is rejected by the library's decoder: {}", err_label(&e)),
+        case,
+      )
+    }
   }
 }
 
@@ -619,10 +845,7 @@ fn judge_enc(ctx: &Ctx, acc: &mut Acc, case: &Case, ep: &str, why: &[&'static st
     }
     Ok(Err(e)) => {
       let label = err_label(&e);
-      acc.out(format!("{ep}:reject{}:{label}", if open { "(open)" } else { "" }));
-      if non_policy(&e) {
-        acc.nonpolicy.push(format!("{ep}: non-policy error {label}: {case:?}"));
-      }
+      acc.out(format!("{ep}:reject{}{}:{label}", if open { "(open)" } else { "" }, np_mark(non_policy(&e))));
       if why.is_empty() && !open {
         ctx.violation(&format!("{ep}|valid-header-set|rejected"), &format!("header set violates no rule but was rejected with {label}"), case);
       }
@@ -649,20 +872,24 @@ fn header_combos(ncrit: usize) -> Vec<Hdr> {
   v
 }
 /// The full (protected, unprotected) table with `x` and `kid` placed in {neither, protected, unprotected, both}.
+/// The protected header ranges over the first `ncrit` crit values, the unprotected one over the first CRIT_QUICK.
 fn full_table(ncrit: usize) -> Vec<Entry> {
   let combos = header_combos(ncrit);
+  let ucombos = header_combos(CRIT_QUICK);
   let mut t: Vec<Entry> = vec![(None, None)];
   for h in &combos {
     for x in [false, true] {
       for kid in [false, true] {
         let hh = Hdr { x, kid, ..h.clone() };
         t.push((Some(hh.clone()), None));
-        t.push((None, Some(hh)));
+        if (hh.crit as usize) < CRIT_QUICK {
+          t.push((None, Some(hh)));
+        }
       }
     }
   }
   for p in &combos {
-    for u in &combos {
+    for u in &ucombos {
       for xp in 0..4u8 {
         for kp in 0..4u8 {
           let pp = Hdr { x: xp & 1 != 0, kid: kp & 1 != 0, ..p.clone() };
@@ -674,7 +901,9 @@ fn full_table(ncrit: usize) -> Vec<Entry> {
   }
   t
 }
-/// Each further registered member shared individually: member x placement{p,u,both} x valid b64/crit bases.
+/// Each further registered member shared individually: member x placement{p,u,both} x valid b64/crit bases (a shared
+/// member once with equal, once with different values); every ordered pair of different registered members
+/// (incl. kid) split over the two headers, which shares no name.
 fn reg_table() -> Vec<Entry> {
   let mut t = Vec::new();
   for r in 0..REG.len() as u8 {
@@ -684,10 +913,74 @@ fn reg_table() -> Vec<Entry> {
         let u = Hdr { reg: (place & 2 != 0).then_some(r), ..Hdr::default() };
         t.push((Some(p.clone()), Some(u.clone())));
         if place == 1 {
-          t.push((Some(p), None));
+          t.push((Some(p.clone()), None));
         }
         if place == 2 {
-          t.push((None, Some(u)));
+          t.push((None, Some(u.clone())));
+        }
+        if place == 3 {
+          t.push((Some(p), Some(Hdr { alt: true, ..u })));
+        }
+      }
+    }
+  }
+  // different members on the two sides; index REG.len() stands for kid
+  let n = REG.len() as u8;
+  let with = |base: Hdr, m: u8| if m == n { Hdr { kid: true, ..base } } else { Hdr { reg: Some(m), ..base } };
+  for a in 0..=n {
+    for b in 0..=n {
+      if a != b {
+        t.push((Some(with(Hdr { alg: true, ..Hdr::default() }, a)), Some(with(Hdr::default(), b))));
+      }
+    }
+  }
+  t
+}
+/// Disjointness over custom members: the subsets of {x, y, X} on either side, the unprotected side carrying equal
+/// or different values, kid placed in {neither, protected, unprotected, both}, over two rule-free bases.
+fn custom_table() -> Vec<Entry> {
+  let mut t = Vec::new();
+  for (b64, crit) in [(0u8, 0u8), (2, 2)] {
+    for cp in 0..8u8 {
+      for cu in 0..8u8 {
+        for kp in 0..4u8 {
+          for alt in [false, true] {
+            let p = Hdr { alg: true, b64, crit, x: cp & 1 != 0, y: cp & 2 != 0, ux: cp & 4 != 0, kid: kp & 1 != 0, ..Hdr::default() };
+            let u = Hdr { x: cu & 1 != 0, y: cu & 2 != 0, ux: cu & 4 != 0, kid: kp & 2 != 0, alt, ..Hdr::default() };
+            if cu == 0 && kp & 2 == 0 {
+              if !alt {
+                t.push((Some(p.clone()), None));
+              }
+              continue; // an empty unprotected object is in the full table
+            }
+            t.push((Some(p), Some(u)));
+          }
+        }
+      }
+    }
+  }
+  // unprotected-only entries with several custom members
+  for cu in 1..8u8 {
+    t.push((None, Some(Hdr { x: cu & 1 != 0, y: cu & 2 != 0, ux: cu & 4 != 0, ..Hdr::default() })));
+  }
+  t
+}
+/// The crit values beyond the quick product (two-name lists in both orders, crit naming itself, the empty name, a
+/// case variant, a registered name with '#') in the protected header, with `x` and `kid` placed everywhere.
+fn crit_table() -> Vec<Entry> {
+  let mut t = Vec::new();
+  for alg in [false, true] {
+    for b64 in 0..3u8 {
+      for crit in CRIT_QUICK as u8..CRIT.len() as u8 {
+        for xp in 0..4u8 {
+          for kp in 0..4u8 {
+            let p = Hdr { alg, b64, crit, x: xp & 1 != 0, kid: kp & 1 != 0, ..Hdr::default() };
+            if xp & 2 == 0 && kp & 2 == 0 {
+              t.push((Some(p), None));
+            } else {
+              t.push((Some(p), Some(Hdr { x: xp & 2 != 0, kid: kp & 2 != 0, ..Hdr::default() })));
+            }
+          }
         }
       }
     }
@@ -756,22 +1049,31 @@ fn self_check(ctx: &Ctx, table: &[Entry], all_rules: bool) {
 }
 
 fn generate(ctx: &Ctx) {
-  ctx.rule("full product: (protected, unprotected) in {absent, alg{absent,EdDSA} x b64{absent,true,false} x crit alphabet} with custom `x` and registered `kid` placed in {neither,protected,unprotected,both}, plus each further registered member shared individually, run through every decoder (+verify) and encoder entry point; ordered pairs/triples of signature entries / recipients for the general serialization. distinct_nontrivial = distinct (entry point, row) whose header sets violate at most one rule (accepted rows and rows pinning down a single rule)");
+  ctx.rule("full product: (protected, unprotected) in {absent, alg{absent,EdDSA} x b64{absent,true,false} x crit alphabet} with custom `x` and registered `kid` placed in {neither,protected,unprotected,both}, plus each further registered member shared individually (equal and different values), all ordered pairs of different registered members split over the two headers, the subsets of the custom members {x,y,X} on either side (equal and different values), the extended crit alphabet in the protected header, run through every decoder (+verify) and encoder entry point (accepted encoder rows are finished and decoded by the own decoder); ordered pairs/triples of signature entries / recipients for the general serialization. distinct_nontrivial = distinct (entry point, row) whose header sets violate at most one rule (accepted rows and rows pinning down a single rule)");
   ctx.assume("accept-all JwsVerifier and a key without alg: verify can only fail on the header policy; serde_json parses the harness-assembled JSON as written");
   let ncrit = ctx.by_tier(CRIT_QUICK, CRIT.len());
   let table = full_table(ncrit);
   let regs = reg_table();
+  let customs = custom_table();
+  // thorough: these rows are part of the full product
+  let crits = if ctx.quick() { crit_table() } else { Vec::new() };
   let reduced = reduced_table(ncrit);
   self_check(ctx, &table, true);
   self_check(ctx, &regs, false);
-  ctx.bound("crit_alphabet", CRIT[..ncrit].iter().map(|c| format!("{c:?}")).collect::<Vec<_>>());
+  self_check(ctx, &customs, false);
+  self_check(ctx, &crits, false);
+  ctx.bound("crit_alphabet_protected_full_product", CRIT[..ncrit].iter().map(|c| format!("{c:?}")).collect::<Vec<_>>());
+  ctx.bound("crit_alphabet_unprotected", CRIT[..CRIT_QUICK].iter().map(|c| format!("{c:?}")).collect::<Vec<_>>());
+  ctx.bound("crit_alphabet_protected_crit_table", CRIT.iter().map(|c| format!("{c:?}")).collect::<Vec<_>>());
   ctx.bound("table_rows", table.len());
   ctx.bound("registered_member_rows", regs.len());
+  ctx.bound("custom_member_rows", customs.len());
+  ctx.bound("crit_table_rows", crits.len());
   ctx.bound("reduced_entry_table", reduced.len());
 
-  let both: Vec<Entry> = table.iter().chain(regs.iter()).cloned().collect();
+  let both: Vec<Entry> = table.iter().chain(regs.iter()).chain(customs.iter()).chain(crits.iter()).cloned().collect();
   // ---- decoders, single signature
-  let variants: Vec<(bool, bool)> = if ctx.quick() { vec![(false, false)] } else { vec![(false, false), (true, false), (false, true), (true, true)] };
+  let variants: Vec<(bool, bool)> = if ctx.quick() { vec![(false, false), (true, true)] } else { vec![(false, false), (true, false), (false, true), (true, true)] };
   for entry in 0..3u8 {
     let mut cases = Vec::new();
     for (detached, rev) in &variants {
@@ -800,6 +1102,7 @@ fn generate(ctx: &Ctx) {
       r
     };
     let reduced_pairs = &rights;
+    let one_order: Vec<Entry> = if ctx.thorough() { reduced.iter().filter(|b| !rights.contains(b)).cloned().collect() } else { Vec::new() };
     let n = std::sync::atomic::AtomicU64::new(0);
     lefts.par_iter().for_each(|a| {
       let mut acc = Acc::default();
@@ -814,7 +1117,7 @@ fn generate(ctx: &Ctx) {
       }
       if ctx.thorough() {
         // (whole table) x (whole reduced table), one order
-        for b in reduced.iter().filter(|b| !reduced_pairs.contains(b)) {
+        for b in &one_order {
           eval_into(ctx, &mut acc, &Case::DecGeneral { sigs: vec![a.clone(), b.clone()], detached: false });
           k += 1;
         }
@@ -827,32 +1130,29 @@ fn generate(ctx: &Ctx) {
     ctx.add_states(n);
     ctx.add_transitions(n);
     ctx.add_traces(n);
-    ctx.part("Decoder::decode_general_serialization ordered pairs of signature entries", json!({"engine":"E1 full product","rows": n, "left": lefts.len(), "right_both_orders": rights.len(), "right_one_order": if ctx.thorough() { reduced.len() } else { 0 }, "both_orders": ctx.thorough()}));
-    // triples over the b64 spellings
-    let small: Vec<Entry> = small_entries();
+    ctx.part("Decoder::decode_general_serialization ordered pairs of signature entries", json!({"engine":"E1 full product","rows": n, "left": lefts.len(), "right_both_orders": rights.len(), "right_one_order": one_order.len(), "both_orders": ctx.thorough()}));
+    // triples over the b64 spellings (thorough: + every rule-free entry of the reduced table), quadruples over the b64 spellings
+    let seq = sequence_alphabet(ctx, &reduced);
+    ctx.bound("triple_alphabet", seq.len());
     let mut cases = Vec::new();
-    for a in &small {
-      for b in &small {
-        for c in &small {
-          for detached in [false, true] {
-            cases.push(Case::DecGeneral { sigs: vec![a.clone(), b.clone(), c.clone()], detached });
-          }
-        }
+    for s in sequences(&seq, 3).into_iter().chain(sequences(&small_entries(), 4)) {
+      for detached in [false, true] {
+        cases.push(Case::DecGeneral { sigs: s.clone(), detached });
       }
     }
-    run_part(ctx, "Decoder::decode_general_serialization triples of signature entries", &cases);
+    run_part(ctx, "Decoder::decode_general_serialization triples and quadruples of signature entries", &cases);
   }
   // ---- encoders
   {
     let mut cases = Vec::new();
     for (p, u) in &both {
       if let (Some(p), None) = (p, u) {
-        for opt in 0..3u8 {
+        for opt in 0..4u8 {
           cases.push(Case::EncCompact { p: p.clone(), opt });
         }
       }
     }
-    run_part(ctx, "CompactJwsEncoder::new_with_options", &cases);
+    run_part(ctx, "CompactJwsEncoder::new_with_options / ::new", &cases);
     let mut cases = Vec::new();
     for (p, u) in &both {
       for detached in [false, true] {
@@ -877,18 +1177,14 @@ fn generate(ctx: &Ctx) {
       }
     }
     run_part(ctx, "GeneralJwsEncoder::add_recipient ordered pairs", &cases);
-    let small = small_entries();
+    let seq = sequence_alphabet(ctx, &reduced);
     let mut cases = Vec::new();
-    for a in &small {
-      for b in &small {
-        for c in &small {
-          for detached in [false, true] {
-            cases.push(Case::EncGeneral { recips: vec![a.clone(), b.clone(), c.clone()], detached });
-          }
-        }
+    for s in sequences(&seq, 3).into_iter().chain(sequences(&small_entries(), 4)) {
+      for detached in [false, true] {
+        cases.push(Case::EncGeneral { recips: s.clone(), detached });
       }
     }
-    run_part(ctx, "GeneralJwsEncoder::add_recipient triples", &cases);
+    run_part(ctx, "GeneralJwsEncoder::add_recipient triples and quadruples", &cases);
     let mut cases = Vec::new();
     for which in 0..SMUGGLE.len() as u8 {
       for enc in 0..2u8 {
@@ -896,9 +1192,39 @@ fn generate(ctx: &Ctx) {
       }
     }
     run_part(ctx, "typed header with a registered name in the custom map (recorded, not judged)", &cases);
+    let mut cases = Vec::new();
+    for which in 0..RAW.len() as u8 {
+      for entry in 0..3u8 {
+        if entry == 0 && RAW[which as usize].2.is_some() {
+          continue;
+        }
+        cases.push(Case::DecRaw { entry, which });
+      }
+    }
+    run_part(ctx, "null-valued and duplicated header members at the decoders (recorded, not judged)", &cases);
   }
 }
 
+/// All sequences of length `n` over `alphabet`.
+fn sequences(alphabet: &[Entry], n: usize) -> Vec<Vec<Entry>> {
+  let mut out: Vec<Vec<Entry>> = vec![Vec::new()];
+  for _ in 0..n {
+    out = out.into_iter().flat_map(|s| alphabet.iter().map(move |e| s.iter().cloned().chain([e.clone()]).collect::<Vec<_>>())).collect();
+  }
+  out
+}
+/// Alphabet of the triples: the b64 spellings; thorough adds every rule-free entry of the reduced table.
+fn sequence_alphabet(ctx: &Ctx, reduced: &[Entry]) -> Vec<Entry> {
+  let mut a = small_entries();
+  if ctx.thorough() {
+    for e in reduced.iter().filter(|e| rules(e.0.as_ref(), e.1.as_ref()).is_empty()) {
+      if !a.contains(e) {
+        a.push(e.clone());
+      }
+    }
+  }
+  a
+}
 /// Entries for the triple products: every b64 spelling, valid and invalid.
 fn small_entries() -> Vec<Entry> {
   vec![
